@@ -24,6 +24,8 @@ def main(argv=None):
     c = sub.add_parser("check")
     c.add_argument("prop")
     c.add_argument("--tier", default=os.environ.get("VERIF_TIER", "quick"))
+    b = sub.add_parser("baseline")
+    b.add_argument("prop")
     r = sub.add_parser("replay")
     r.add_argument("path")
     a = ap.parse_args(argv)
@@ -41,6 +43,19 @@ def main(argv=None):
             print("CHECKER-FAILURE property=%s (crash in the checker, not a verdict)" % a.prop)
             code = 3
         sys.exit(code)
+    if a.cmd == "baseline":
+        # development command: record which obligations are discharged on the (unchanged) tree
+        load_contracts()
+        mod = importlib.import_module("props." + a.prop)
+        rep = Report(a.prop, "thorough", 0, level=getattr(mod, "LEVEL", "proof"))
+        mod.run(rep, "thorough")
+        rep.finish()
+        ids = sorted(r.oid for r in rep.results if r.status == "discharged" and r.klass in ("P", "L"))
+        os.makedirs(os.path.join(VERIF, "baseline"), exist_ok=True)
+        with open(os.path.join(VERIF, "baseline", a.prop + ".json"), "w") as f:
+            json.dump({"property": a.prop, "discharged": ids}, f, indent=0)
+        print("baseline written: %d obligations" % len(ids))
+        sys.exit(0)
     if a.cmd == "replay":
         from .replay import replay_file
         sys.exit(replay_file(a.path))
